@@ -37,6 +37,7 @@ type Frame struct {
 	Panicked    bool
 	InDefer     int             // >0 while running deferred calls; value = index+1 of next defer to run
 	AfterDefers func(st *State) // continuation after the defer stack has been run
+	RetTo   *Value
 	Depth       int
 }
 
